@@ -4,8 +4,6 @@ From Coq Require Import ZArith List Bool Lia.
 From NV Require Import Src.Syntax Src.Eval Src.EvalLemmas.
 Import ListNotations.
 
-Lemma binop_cases : forall op, op = And \/ op = Or \/ (op <> And /\ op <> Or).
-Proof. destruct op; auto; right; right; split; discriminate. Qed.
 
 (* ---- A1. fuel monotonicity -------------------------------------------------------- *)
 
